@@ -34,6 +34,7 @@
 #include <stdlib.h>
 #include <string.h>
 #include <stdbool.h>
+#include <unistd.h>
 #include "vnacal_new_internal.h"
 #include "vnadata.h"
 
@@ -116,6 +117,7 @@ int wb_qrsolve(complex double *x, complex double *a, complex double *b, int m, i
 double complex wb_mldivide(complex double *x, complex double *a, const double complex *b,
 	int m, int n);
 int wb_printf(const char *fmt, ...);
+double wb_exp(double x);
 #include <stdarg.h>
 
 static void wb_matrix(const char *tag, const double complex *a, int m, int n)
@@ -184,6 +186,13 @@ double complex wb_mldivide(complex double *x, complex double *a, const double co
 	wb_matrix("b", b, m, n);
     }
     return _vnacommon_mldivide(x, a, b, m, n);
+}
+
+/* exp() as called by chisq_pvalue (harness/selfcal_wb_pvalue.c): the argument is -chisq / 2 */
+double wb_exp(double x)
+{
+    printf("wb exp %.17g\n", x);
+    return exp(x);
 }
 
 int wb_printf(const char *fmt, ...)
@@ -319,6 +328,9 @@ int main(int argc, char **argv)
 	    snprintf(id, sizeof(id), "%s", next());
 	    printf("begin %s\n", id);
 	    fflush(stdout);
+	    /* wall-clock limit per scenario: a solve that does not return kills the process
+	       with SIGALRM and the runner attributes the hang to this scenario */
+	    alarm(getenv("SELFCAL_ALARM") != NULL ? (unsigned)atoi(getenv("SELFCAL_ALARM")) : 30u);
 	    nnames = 0;
 	    have_cal = 0;
 	    if ((vcp = vnacal_create(error_fn, NULL)) == NULL)
